@@ -193,7 +193,7 @@ func ruleDecodeAnyUsesNumber(c *core.Ctx) {
 		// somewhere in ToCore (or a helper it calls) the digits of a json.Number are parsed exactly:
 		// SetString(<json.Number>.String(), 10) — whether the arm is a type-switch case or an if
 		arm := false
-		inScope(fnScope(c, t, 1), func(sd *astx.DeclInfo) {
+		inScope(fnScope(c, t, 3), func(sd *astx.DeclInfo) {
 			si := sd.Pkg.TypesInfo
 			for _, call := range callsTo(si, sd.Decl.Body, named("SetString")) {
 				if len(call.Args) < 1 {
